@@ -72,7 +72,10 @@ def _materialise(commit: str | None, dest: Path):
         if r.returncode != 0:
             raise RuntimeError(r.stderr)
     else:
-        shutil.copytree(REPO / "src", dest / "src", ignore=shutil.ignore_patterns("__pycache__", "*.pyc"))
+        # the committed HEAD (not the working tree: a fix in progress must not leak into the evaluation)
+        r = subprocess.run(f"git -C {REPO} archive HEAD src | tar -x -C {dest}", shell=True, capture_output=True, text=True)
+        if r.returncode != 0:
+            shutil.copytree(REPO / "src", dest / "src", ignore=shutil.ignore_patterns("__pycache__", "*.pyc"))
 
 
 def base_results(commit: str | None, props):
